@@ -26,6 +26,8 @@ import (
 // validation (req.Validate() == nil) and therefore reached a command handler.
 // Requests that reached a handler are counted per RPC ("reached:<RPC>").
 
+const confirmTries = 6
+
 func genC19(t *rapid.T) Case {
 	g := &G{s: rapidSrc{t}, thorough: fw.TierIsThorough()}
 	return g.Scenario()
@@ -47,19 +49,20 @@ func execute(c Case) Result {
 func checkC19(env *fw.Env, c Case) *fw.Failure {
 	res := execute(c)
 	if res.Fail != nil && res.Fail.Timing && !fw.IsKnown(res.Fail.Signature) {
-		// wall-clock verdicts must not depend on a busy machine: the same request must
-		// overrun again on two more fresh servers
-		for k := 0; k < 2; k++ {
+		// Wall-clock and heap verdicts must not depend on a busy machine: the same request
+		// must fail the same way again on a fresh server in a fresh process. Hangs may be
+		// non-deterministic (a race decides whether an evaluation short-circuits or explodes),
+		// so up to confirmTries further executions are made and one reproduction confirms.
+		confirmed := false
+		for k := 0; k < confirmTries && !confirmed; k++ {
 			again := execute(c)
-			if again.Fail == nil || again.Fail.Signature != res.Fail.Signature {
-				env.Rec.Inconclusive()
-				env.Rec.Add("timing_not_confirmed", 1)
-				res = again
-				if res.Fail != nil && res.Fail.Timing {
-					res.Fail = nil
-				}
-				break
-			}
+			confirmed = again.Fail != nil && again.Fail.Signature == res.Fail.Signature
+		}
+		env.Rec.Add("timing_verdicts_rechecked", 1)
+		if !confirmed {
+			env.Rec.Inconclusive()
+			env.Rec.Add("timing_not_confirmed", 1)
+			res.Fail = nil
 		}
 	}
 	if res.Harness {
